@@ -18,7 +18,7 @@ fn main() {
     let mode = std::env::args().nth(1).unwrap_or_default();
     match mode.as_str() {
         "proj" => {
-            let mut wd = Watchdog::new(make_proj_case, 30);
+            let mut wd = Watchdog::new(make_proj_case, 12);
             let t = run_component_cases(|input, dev| wd.call(input, dev));
             print_summary(&t, json!({"slice_hangs_observed": SLICE_HANGS.load(std::sync::atomic::Ordering::Relaxed),
                                      "slice_predicted_hangs_not_executed": SLICE_SKIPPED.load(std::sync::atomic::Ordering::Relaxed),
@@ -30,7 +30,7 @@ fn main() {
             fn mk() -> CaseFn {
                 Box::new(|input, _dev| wire_cursor::run_ops(input))
             }
-            let mut wd = Watchdog::new(mk, 20);
+            let mut wd = Watchdog::new(mk, 12);
             let t = run_component_cases(|input, dev| wd.call(input, dev));
             print_summary(&t, json!({"battery_hangs_observed": wd.hangs}));
             std::process::exit(0);
@@ -43,7 +43,7 @@ fn main() {
                     wire_new::codec_view(&m, &starts)
                 })
             }
-            let mut wd = Watchdog::new(mk, 20);
+            let mut wd = Watchdog::new(mk, 12);
             let t = run_component_cases(|input, dev| wd.call(input, dev));
             print_summary(&t, json!({"battery_hangs_observed": wd.hangs}));
             std::process::exit(0);
